@@ -237,6 +237,10 @@ def run(ctx: Ctx) -> None:
         for i, ln, what in bad[:3]:
             if what.startswith("round trip"):
                 ctx.violation("jwert:zip=DEF diverse large plaintext -> " + what.split(":")[0], {"index": i, "length": ln, "what": what})
+    # the life of one encryption object: encrypted, edited, encrypted again; parsed from a foreign token and re-encrypted (JweReuse.tla)
+    _init()
+    from . import reenc
+    ctx.evaluations += reenc.run(ctx, "C04")
     ctx.rule = ("every scenario of JweRoundTrip.tla: 21 alg x 8 enc x zip x 3 serializations x AAD x apu/apv x 8 plaintext classes x header placement for "
                 "one recipient, and 10 recipient mixes (incl. forbidden ones) x 3 enc x zip x AAD x plaintext class; quick = all mixes + a seeded fifth "
                 "of the single-recipient scenarios; ECDH keys rotate over six curves; distinct_nontrivial = distinct scenarios executed")
@@ -244,6 +248,10 @@ def run(ctx: Ctx) -> None:
 
 
 def replay(ctx: Ctx, rec: dict) -> None:
+    if rec.get("reuse"):
+        from . import reenc
+        _init()
+        return reenc.replay(ctx, rec)
     _init()
     f = one(rec["scenario"], rec["index"], ctx.seed if "seed" not in rec else rec["seed"], True)
     print(json.dumps(rec["scenario"]), "observed now:", f)
